@@ -2,17 +2,17 @@
 
 // C17 — read caching, fallback, replicators and existence caches are transparent.
 //
-//   transparency/*  real NewReadCachingBlobAccess / NewReadFallbackBlobAccess over gated, fault-injecting
-//                   model backends and each replicator strategy {noop, local, deduplicating, concurrency-
-//                   limiting, queued}: every initial placement x every operation sequence of the stated
-//                   depth, all schedules and every placement of an injected backend failure in the bound.
-//   replicators/*   2-3 concurrent callers of ReplicateMultiple / ReplicateSingle with overlapping digest
-//                   sets over a gated model source and sink; sink/source failures and context
-//                   cancellation are choice points. Counting decorators give the number of concurrently
-//                   active base copies per object / overall at every instant.
-//   existence/*     real NewExistenceCachingBlobAccess with the real ExistenceCache (LRU/FIFO/RR sets,
-//                   sizes 1 and 2, duration 10 s) on the virtual clock: every sequence of existence
-//                   checks, backend content changes and clock advances of the stated depth.
+//	transparency/*  real NewReadCachingBlobAccess / NewReadFallbackBlobAccess over gated, fault-injecting
+//	                model backends and each replicator strategy {noop, local, deduplicating, concurrency-
+//	                limiting, queued}: every initial placement x every operation sequence of the stated
+//	                depth, all schedules and every placement of an injected backend failure in the bound.
+//	replicators/*   2-3 concurrent callers of ReplicateMultiple / ReplicateSingle with overlapping digest
+//	                sets over a gated model source and sink; sink/source failures and context
+//	                cancellation are choice points. Counting decorators give the number of concurrently
+//	                active base copies per object / overall at every instant.
+//	existence/*     real NewExistenceCachingBlobAccess with the real ExistenceCache (LRU/FIFO/RR sets,
+//	                sizes 1 and 2, duration 10 s) on the virtual clock: every sequence of existence
+//	                checks, backend content changes and clock advances of the stated depth.
 package main
 
 import (
@@ -48,9 +48,9 @@ const cacheDuration = 10 * time.Second
 // faulty wraps a BlobAccess: every call is a scheduling gate and may fail with an injected error.
 type faulty struct {
 	blobstore.BlobAccess
-	name   string
-	budget *int
-	seen   *[]codes.Code
+	name      string
+	budget    *int
+	seen      *[]codes.Code
 	onPutDone func(d digest.Digest, err error)
 	onFM      func(asked digest.Set, missing digest.Set, err error)
 }
@@ -118,13 +118,16 @@ func (f *faulty) FindMissing(ctx context.Context, ds digest.Set) (digest.Set, er
 // ---- replicator construction ------------------------------------------------------------
 
 type counting struct {
-	base       replication.BlobReplicator
-	active     int
-	maxActive  int
-	perKey     map[string]int
-	maxPerKey  int
-	calls      int
-	onDone     func(ds digest.Set, err error)
+	base      replication.BlobReplicator
+	active    int
+	maxActive int
+	perKey    map[string]int
+	maxPerKey int
+	calls     int
+	onDone    func(ds digest.Set, err error)
+	// slowCopies: every copy is either quick or (free choice) takes so long that every other caller gets as
+	// far as it can before the copy proceeds
+	slowCopies bool
 }
 
 func (c *counting) ReplicateSingle(ctx context.Context, d digest.Digest) bufferT {
@@ -147,6 +150,9 @@ func (c *counting) ReplicateMultiple(ctx context.Context, ds digest.Set) error {
 		if c.perKey[k] > c.maxPerKey {
 			c.maxPerKey = c.perKey[k]
 		}
+	}
+	if c.slowCopies && vsched.ChooseFree("choice", 2) == 1 {
+		vsched.YieldLow("slow-copy")
 	}
 	err := c.base.ReplicateMultiple(ctx, ds)
 	for _, d := range ds.Items() {
@@ -467,6 +473,7 @@ func newRWorld(kind string, sinkHas int, faults int) *rworld {
 		}
 	}
 	w.repl = mkReplicator(kind, src, snk, &w.cnt)
+	w.cnt.slowCopies = true
 	return w
 }
 
@@ -724,6 +731,8 @@ func main() {
 			{"two-overlap", [][]int{{0, 1}, {1}}, 0, 0, false, false},
 			{"three-same", [][]int{{0}, {0}, {0}}, 0, 0, false, false},
 			{"two-same-fault", [][]int{{0}, {0}}, 0, 1, false, false},
+			{"three-same-fault", [][]int{{0}, {0}, {0}}, 0, 1, false, false}, // a failing leader with two waiters: both wake up, one must become the next leader
+			{"three-same-cancel", [][]int{{0}, {0}, {0}}, 0, 0, true, false},
 			{"two-overlap-fault", [][]int{{0, 1}, {0}}, 2, 1, false, false},
 			{"two-same-cancel", [][]int{{0}, {0}}, 0, 0, true, false},
 			{"three-cancel-fault", [][]int{{0}, {0, 1}, {1}}, 0, 1, true, false},
